@@ -319,10 +319,10 @@ cdef class LinkedListNNPS(NNPS):
         self.ncells_per_dim.data[1] = ncy
         self.ncells_per_dim.data[2] = ncz
 
-        # total number of cells
-        _ncells = ncx
-        if dim == 2: _ncells = ncx * ncy
-        if dim == 3: _ncells = ncx * ncy * ncz
+        # total number of cells.  The flattened index uses all three cell
+        # ids, and the unused directions can have more than one cell (a
+        # degenerate extent is padded to unit size), so always count all.
+        _ncells = ncx * ncy * ncz
         return _ncells
 
     @cython.boundscheck(False)
